@@ -99,7 +99,7 @@ def make_case(rnd, lname, tlib, bf):
             r, f = vals(False), vals(False)
             a = dn if dp is None else '%s/%s' % (dn, dp)
             b = rn if rp is None else '%s/%s' % (rn, rp)
-            esc = lambda x: x.replace('$', '\\$') if rnd.random() < 0.5 else x
+            esc = lambda x: x.replace('$', '\\$').replace('[', '\\[').replace(']', '\\]') if rnd.random() < 0.5 else x      # escaped special characters, as SDF writers emit them
             txt = '(INTERCONNECT %s %s %s %s)' % (esc(a), esc(b), triple_txt(rnd, r), triple_txt(rnd, f))
             ents.append((None, txt, dict(io=False, inst=0, pin=0, edge='none', r=r, f=f, **{'from': idx[dn], 'fpin': 0 if dp is None else tlib.pin_index(dk, dp),
                                                                                           'to': idx[rn], 'tpin': 0 if rp is None else tlib.pin_index(rk, rp)})))
